@@ -275,28 +275,29 @@ def gen_program(rng):
     return {"src": src, "ending": ending, "fnames": fnames, "tags": sorted(g.tags)}
 
 
-def gen_options(rng, prog, allow_mixed):
-    """(libcall option, [-F/-N patterns as UFTRACE_FILTER elements])"""
-    lib = rng.choice(["NONE", "SINGLE", "SINGLE", "NESTED"])
+def gen_options(rng, prog, allow_mixed, logged, plain_lib=None):
+    """(libcall option, [-F/-N patterns as UFTRACE_FILTER elements]); patterns name calls that happened"""
+    if plain_lib:
+        return plain_lib, None
+    lib = rng.choice(["NONE", "SINGLE", "SINGLE", "NESTED", "NESTED"])
     # (not math.sqrt: as a regex it matches the native symbol math_sqrt, see finding native-symbol-filter)
-    cand = prog["fnames"] + ["c19lib.q_l1", "c19lib.q_l2", "builtins.sorted", "posix.getpid", "c19mod.q_g", "builtins.max"]
-    r = rng.random()
-    env = None
-    if r >= 0.35:
-        kind = rng.choice(["F", "N", "FN"] if allow_mixed else ["F", "N"])
-        env = []
-        for j in range(rng.choice([1, 1, 2])):
-            n = rng.choice(cand)
-            # patterns must not match native symbols of the interpreter (libmcount applies the same filter to
-            # them, see finding native-symbol-filter): library names only whole, user names whole or by prefix
-            if n.startswith(LIB_PREFIX) or n.startswith("c19mod."):
-                p = rng.choice([n, "^" + n + "$"])
-            else:
-                p = rng.choice([n, n, "^" + n + "$", "^" + n[:5], "^" + n[:3]])
-            out = kind == "N" or (kind == "FN" and j == 1)
-            env.append(("!" if out else "") + p)
-        if kind == "FN" and len(env) == 1:
-            env.append("!" + rng.choice(["c19lib.q_l2", "posix.getpid", "builtins.sorted", rng.choice(prog["fnames"])]))
+    cand = [n for n in logged if n.startswith(("q_", "Q_K", "c19lib.q_l", "c19mod.")) or n in ("builtins.sorted", "posix.getpid", "builtins.max")]
+    if not cand:
+        return lib, None
+    kind = rng.choice(["F", "N", "FN"] if allow_mixed else ["F", "N"])
+    env = []
+    for j in range(rng.choice([1, 1, 2])):
+        n = rng.choice(cand)
+        # patterns must not match native symbols of the interpreter (libmcount applies the same filter to
+        # them, see finding native-symbol-filter): library names only whole, user names whole or by prefix
+        if n.startswith(LIB_PREFIX) or n.startswith("c19mod."):
+            p = rng.choice([n, "^" + n + "$"])
+        else:
+            p = rng.choice([n, n, "^" + n + "$", "^" + n[:5], "^" + n[:3]])
+        out = kind == "N" or (kind == "FN" and j == 1)
+        env.append(("!" if out else "") + p)
+    if kind == "FN" and len(env) == 1:
+        env.append("!" + rng.choice(cand))
     return lib, env
 
 
@@ -351,6 +352,14 @@ class World:
         cmd = ["timeout", "30", self.uft, "record", "--no-pager", "--no-event", "--libmcount-path=" + self.objdir,
                "-d", d] + opts + [self.prog, log]
         p = subprocess.run(cmd, env=self.env(), capture_output=True, text=True, cwd=self.root, timeout=60)
+        if p.returncode != 124 and os.path.isdir(d) and not [f for f in os.listdir(d) if f.endswith(".dat")]:
+            # no task data at all: legitimate when nothing is selected; seen once as a transient on a loaded
+            # machine - record again and note it if the second recording differs
+            shutil.rmtree(d, ignore_errors=True)
+            p = subprocess.run(cmd, env=self.env(), capture_output=True, text=True, cwd=self.root, timeout=60)
+            if os.path.isdir(d) and [f for f in os.listdir(d) if f.endswith(".dat")]:
+                self.ctx.extra["e2e_empty_recording_not_reproduced"] = self.ctx.extra.get("e2e_empty_recording_not_reproduced", 0) + 1
+                self.ctx.log("note: a recording without any task data was not reproduced on the second run:", " ".join(cmd[2:]))
         res = {"rc": p.returncode, "out": p.stdout, "err": p.stderr, "cmd": " ".join(cmd[2:]),
                "log": open(log).read().split("\n") if os.path.exists(log) else None}
         rc, out, err = sh(["timeout", "20", self.uft, "replay", "--no-pager", "-d", d, "-f", "none"], env=self.env())
@@ -513,6 +522,8 @@ def one_config(ctx, w, prog, nat, lib, env):
                       dict(rep, replay=t["replay"][-1500:]), True)
         return None
     unp = "unpaired cygprof exit" in t["err"]
+    if os.environ.get("VERIF_DEBUG"):
+        ctx.log("e2e case:", lib, env, ending, "replayed", json.dumps(replay)[:300])
     return {"env": env, "lib": lib, "forest": strip_dump(forest), "replay": strip_dump(replay),
             "names": all_names(forest, all_names(replay, [])), "rep": rep, "unpaired": unp, "open": ending == "os._exit",
             "by_exception": ending in ("sys.exit", "SystemExit"), "tags": prog["tags"]}
@@ -523,9 +534,22 @@ SYSEXIT_PROG = {"src": "#!/usr/bin/env python3\nimport sys\nimport c19lib\ndef q
                 "ending": "sys.exit", "fnames": ["q_a"], "tags": ["witness:sys.exit"]}
 
 
+NATIVE_KEY = "native-symbol-filter"
+MAIN_PROG = {"src": "#!/usr/bin/env python3\nimport sys\nimport c19lib\ndef helper():\n    c19lib.LOG += ['E helper', 'X helper']\n"
+                    "def main():\n    c19lib.LOG += ['E main']\n    helper()\n    c19lib.LOG += ['X main']\nmain()\n"
+                    "c19lib.q_dump(sys.argv[1])\n",
+             "ending": "normal", "fnames": ["main", "helper"], "tags": ["witness:-F main"]}
+
+OSEXIT_PROG = {"src": "#!/usr/bin/env python3\nimport os, sys\nimport c19lib\ndef q_b():\n    c19lib.LOG += ['E q_b', 'X q_b']\n"
+                      "def q_a():\n    c19lib.LOG += ['E q_a']\n    q_b()\n    c19lib.q_dump(sys.argv[1])\n    os._exit(4)\nq_a()\n",
+               "ending": "os._exit", "fnames": ["q_a", "q_b"], "tags": ["witness:os._exit"]}
+
+
 def verdict(ctx, ecases, res, fixed):
     if res is None:
         return
+    ctx.log("e2e: %d cases; model mismatches %s; specification violations %s; in defect class %s"
+            % (len(ecases), res["mismatch"], res["violations"], res["defect_class"]))
     defect = set(res["defect_class"])
     new = [i for i in res["violations"] if fixed or i not in defect]
     for i in new[:3]:
@@ -541,8 +565,9 @@ def verdict(ctx, ecases, res, fixed):
                            logged=k["forest"], replayed=k["replay"]), False)
     # unpaired exits reported by libmcount
     for k in ecases:
-        if k["unpaired"] and not k["by_exception"] and (fixed or ecases.index(k) not in defect):
-            ctx.violation("libmcount reported an unpaired cygprof exit for a Python program that ends normally / by os._exit",
+        from props import c19 as _c19
+        if k["unpaired"] and (not k["by_exception"] or _c19.repaired2(ctx)) and (fixed or ecases.index(k) not in defect):
+            ctx.violation("libmcount reported an unpaired cygprof exit for a generated Python program",
                           k["rep"], True)
             break
     ctx.extra["e2e_cases"] = len(ecases)
@@ -563,7 +588,11 @@ def run(ctx, objdir, fixed):
         text = ("a script that ends by sys.exit() or an uncaught exception: the `return` events of runpy._run_code and "
                 "runpy._run_module_as_main (entered before tracing started) are passed to libmcount as exits "
                 "(WARN: unpaired cygprof exit; __cygprof_exit inspects rstack[-1]); default and --nest-libcall modes")
-        if k["unpaired"]:
+        from props import c19 as _c19
+        if k["unpaired"] and _c19.repaired2(ctx):
+            ctx.violation("a script ended by sys.exit() still sends unpaired exits to libmcount (repair expected by known-findings.txt)",
+                          k["rep"], True)
+        elif k["unpaired"]:
             if ctx.kf.listed(ctx.prop, SYSEXIT_KEY):
                 ctx.known_finding(SYSEXIT_KEY, text, True, k["rep"])
             else:
@@ -572,7 +601,37 @@ def run(ctx, objdir, fixed):
                     {"key": SYSEXIT_KEY, "text": text, "witness": SYSEXIT_PROG["src"], "proposed_fix": "proposed-fixes/C19-2.diff"})
         else:
             ctx.log("finding %s no longer reproduces" % SYSEXIT_KEY)
-    nprog = ctx.n(7, 90)
+    # witness of the third finding: -F <python function> when the interpreter has a native symbol of that name
+    w.write(MAIN_PROG)
+    nat = w.native()
+    k = one_config(ctx, w, MAIN_PROG, nat, "SINGLE", ["main"])
+    if k is not None:
+        ctx.case(key=("e2e-witness", "-F main"), tags=["e2e:witness-native-symbol-filter"])
+        text = ("`uftrace record -F main script.py` records nothing when the interpreter binary (or a loaded library) has a "
+                "native symbol matching the pattern (here: main of python3.11): libmcount applies UFTRACE_FILTER to the "
+                "native symbols, enters opt-in mode and drops every Python pseudo-address; -F math.sqrt (regex) "
+                "matches math_sqrt the same way")
+        if k["replay"] == [] and k["forest"]:
+            if ctx.kf.listed(ctx.prop, NATIVE_KEY):
+                ctx.known_finding(NATIVE_KEY, text, True, k["rep"])
+            elif any("property=C19" in l and NATIVE_KEY in l for l in ctx.kf.fixed):
+                ctx.violation("-F main on a Python script records nothing (repair expected by known-findings.txt)", k["rep"], True)
+            else:
+                ctx.log("PENDING-FINDING property=C19 key=%s (not listed in known-findings.txt): %s" % (NATIVE_KEY, text))
+                ctx.extra.setdefault("pending_findings", []).append(
+                    {"key": NATIVE_KEY, "text": text, "witness": MAIN_PROG["src"], "options": "-F main"})
+        else:
+            ecases.append(k)      # behaves as documented in this environment: judged like every other case
+            ctx.log("finding %s does not reproduce in this environment (no native symbol `main`?)" % NATIVE_KEY)
+    # a script ended by os._exit: the hook of python/uftrace.py must still write the symbol table
+    w.write(OSEXIT_PROG)
+    nat = w.native()
+    for lib in ("SINGLE", "NESTED"):
+        k = one_config(ctx, w, OSEXIT_PROG, nat, lib, None)
+        if k is not None:
+            ecases.append(k)
+            ctx.case(key=("e2e-fixed", "os._exit", lib), tags=["e2e:fixed-os._exit", "e2e:lib:" + lib])
+    nprog = ctx.n(6, 80)
     for pi in range(nprog):
         prog = gen_program(rng)
         w.write(prog)
@@ -581,8 +640,10 @@ def run(ctx, objdir, fixed):
             ctx.broken("generated program failed natively (generator bug) rc=%s: %s" % (nat[0], nat[2][-400:]), prog["src"][-3000:])
             continue
         nconf = ctx.n(2, 5)
+        logged = sorted(set(l.split(" ", 1)[1] for l in nat[3] if l))
         for ci in range(nconf):
-            lib, env = gen_options(rng, prog, allow_mixed=(fixed or ci == 1))
+            lib, env = gen_options(rng, prog, allow_mixed=(fixed or ci == 1), logged=logged,
+                                   plain_lib=["NESTED", "SINGLE", "NONE"][pi % 3] if ci == 0 else None)
             k = one_config(ctx, w, prog, nat, lib, env)
             if k is None:
                 continue
